@@ -253,6 +253,31 @@ def rule_or_atomic(repo, col):
 # OR-REFUSE-KIND
 # --------------------------------------------------------------------------
 
+def _refusing_callees(repo):
+    """Names of the functions / methods of biom/err.py whose first
+    parameter is tested for membership with a raise on the unknown branch
+    before any other use (the test of OR-REFUSEKIND itself)."""
+    out = set()
+    m = repo.mod(ERR)
+    for q, f in m.defs.items():
+        if not isinstance(f, ast.FunctionDef):
+            continue
+        params = [p for p in param_names(f) if p not in ('self', 'cls')]
+        if not params:
+            continue
+        kind = params[0]
+        for n in ast.walk(f):
+            if isinstance(n, ast.If) and isinstance(n.test, ast.Compare) \
+                    and len(n.test.ops) == 1 and isinstance(
+                    n.test.ops[0], (ast.NotIn, ast.In)) and isinstance(
+                    n.test.left, ast.Name) and n.test.left.id == kind:
+                refusing = n.body if isinstance(
+                    n.test.ops[0], ast.NotIn) else n.orelse
+                if any(isinstance(b, ast.Raise) for b in refusing):
+                    out.add(q.split('.')[-1])
+    return out
+
+
 def rule_refuse_unknown(repo, col):
     """Unknown kinds / reactions are refused: a ``raise`` guarded by a
     membership test on the requested kind dominates every use."""
@@ -281,6 +306,26 @@ def rule_refuse_unknown(repo, col):
                         guard = n
                         break
         if guard is None:
+            # the refusal may live in the function this one delegates to:
+            # every use of the kind is an argument of a call of a function /
+            # method of this module that refuses unknown kinds itself
+            uses = [x for x in ast.walk(f) if isinstance(x, ast.Name) and
+                    x.id == kind and isinstance(x.ctx, ast.Load)]
+            callees = []
+            for c in ast.walk(f):
+                if isinstance(c, ast.Call) and any(
+                        u is a_ for a_ in c.args for u in uses):
+                    nm = c.func.attr if isinstance(
+                        c.func, ast.Attribute) else (
+                        c.func.id if isinstance(c.func, ast.Name) else None)
+                    callees.append(nm)
+            delegated = bool(uses) and len(callees) >= len(uses) and all(
+                nm in _refusing_callees(repo) for nm in callees)
+            if delegated:
+                col.ok(rule, ERR, q, 'guard', f,
+                       'delegates to %s, which refuses unknown kinds'
+                       % sorted(set(callees)))
+                continue
             col.bad(rule, ERR, q, 'guard', f,
                     'no `if %s not in <registry>: raise` refusal' % kind)
             continue
